@@ -138,4 +138,14 @@ PROPS = {
         ],
         "assumptions": ["value trees are those of the generator: maps, lists, strings, numbers, booleans, nulls, empty maps"],
     },
+    "C09": {
+        "corr": [("conc", {"quick": 900, "thorough": 6000}), ("racecheck", {"quick": 2, "thorough": 8})],
+        "race_build": True,
+        "trusted_base": [
+            "modelled, not verified: atomicity of one driver call (Create is create-if-absent: the memory driver's mutex, the API server's AlreadyExists for Secrets/ConfigMaps -- here client-go's fake clientset), the goroutine scheduler (the harness imposes the schedule at gates placed before every storage call and the cluster mutation; what happens between two gated calls of one operation is one step), faults and history limits (none in this model: pruning deletes records), install --replace, rollback and uninstall as concurrent parties",
+            "freedom from data races is checked by the Go race detector over a storage workload (thorough tier): testing, not proof",
+        ],
+        "assumptions": ["the model is compared with the implementation on the serialising backend (Secrets); on the memory backend only the property monitors run, because the memory driver hands out the stored objects themselves (see the known finding)",
+                        "well-formedness of the history at quiescence is proved by exhaustive kernel evaluation for two operations (all 924 interleavings) and for three with two preemptions, from four histories; one-creator-per-revision and losers-touch-nothing are proved for any number of operations and any schedule"],
+    },
 }
